@@ -136,4 +136,9 @@ def pretty(obj: Any) -> str:  # pragma: no cover
                     output.append(f'{m.group(1)} ')
                 break
 
+        # Nothing recognizes this character (`-`, `.`, `|`, etc.), so keep it as is and move on.
+        if m is None:
+            output.append(sel[index])
+            index += 1
+
     return ''.join(output)
